@@ -183,3 +183,30 @@ theorem T_isperm_kron (σ : Equiv.Perm m) (τ : Equiv.Perm n) :
 theorem T_isperm_bd (σ : Equiv.Perm m) (τ : Equiv.Perm n) :
     fromBlocks (σ.permMatrix 𝕜) 0 0 (τ.permMatrix 𝕜) = Equiv.Perm.permMatrix 𝕜 (Equiv.sumCongr σ τ : Equiv.Perm (m ⊕ n)) := by
   ext (i | i) (j | j) <;> simp [Equiv.Perm.permMatrix, PEquiv.toMatrix_apply]
+
+-- ===== ASSUMED axioms invok_rep, isperm_rep, sqrt_mul, psd_sqrt =====
+-- scope: invok_rep: square block (that a non-square block makes the block diagonal singular is the cited rank argument); n >= 1 is Nonempty m
+theorem T_invok_rep [Nonempty m] (A : Matrix n n 𝕜) (h : IsUnit (blockDiagonal (fun _ : m => A)).det) : IsUnit A.det := by
+  rw [det_blockDiagonal, Finset.prod_const, Finset.card_univ] at h
+  exact (isUnit_pow_iff Fintype.card_ne_zero).mp h
+
+theorem T_isperm_rep (σ : Equiv.Perm n) :
+    blockDiagonal (fun _ : m => σ.permMatrix 𝕜) = Equiv.Perm.permMatrix 𝕜 (Equiv.prodCongr σ (Equiv.refl m) : Equiv.Perm (n × m)) := by
+  ext ⟨i, k⟩ ⟨j, k'⟩
+  simp [Equiv.Perm.permMatrix, PEquiv.toMatrix_apply, blockDiagonal_apply, Prod.ext_iff]
+  split_ifs <;> simp_all
+
+-- principal square root of a PSD matrix: fnm(f_pow(1/2), A) = CFC.sqrt A (continuous functional calculus, order on matrices = Loewner order)
+-- scope: sqrt_mul: PSD (hence Hermitian) arguments only; the axiom is stated for every square A that has a principal square root
+open scoped MatrixOrder in
+theorem T_sqrt_mul (A : Matrix n n 𝕜) (hA : A.PosSemidef) : CFC.sqrt A * CFC.sqrt A = A :=
+  CFC.sqrt_mul_sqrt_self A hA.nonneg
+
+open scoped MatrixOrder in
+theorem T_psd_sqrt (A : Matrix n n 𝕜) (hA : A.PosSemidef) : (CFC.sqrt A).PosSemidef :=
+  (CFC.sqrt_nonneg A).posSemidef
+
+-- scope: fnm_sim: f = exp only (f(V D V^-1) = V f(D) V^-1 is the definition of a primary matrix function on a diagonalisable matrix; for exp it is a theorem)
+theorem T_fnm_sim_exp (A : Matrix n n 𝕜) (d : n → 𝕜) (h : IsUnit A.det) :
+    NormedSpace.exp (A * (diagonal d * A⁻¹)) = A * (diagonal (NormedSpace.exp d) * A⁻¹) := by
+  rw [← Matrix.mul_assoc, ← Matrix.mul_assoc, Matrix.exp_conj A (diagonal d) ((Matrix.isUnit_iff_isUnit_det A).mpr h), Matrix.exp_diagonal]
